@@ -531,6 +531,24 @@ def r5_globals(ctx):
         r.check(ok, "inflator/push@%s" % v[:24], "pushed value depends only on the previous entry (%s)" % v[:80], "pushed value %s depends on more than the previous entry" % v[:120], c.where(bi))
 
 
+    # the fill path hands back the entry AT THE REQUESTED INDEX, read from the table while the write lock is held.  The lookup (read lock) and the
+    # fill (write lock) are separate critical sections: another thread may have filled the table past this index in between, and then a value
+    # carried over from the fill loop is the entry of a later index — the inflator of a height would depend on what other threads asked for.
+    for c in cl:
+        if not q.call_exprs(c, "Vec::push"):
+            continue
+        for rb, ri, rv in q.ret_assignments(c):
+            rs = sig(q.novers(rv))
+            idx = ("ops::Index<" in rs or "::get(" in rs) and "height" in rs
+            if idx:
+                r.ok("inflator/result", "the fill path returns the table entry at the requested index", c.where(rb))
+            elif q.contains(rv, lambda y: y[0] in ("phi", "var")) and "height" not in rs:
+                r.violation("inflator/result", "the fill path returns %s — a value carried over from filling, not the entry at the requested index: when another thread has grown the table "
+                            "past this index between the failed lookup and the write lock, the inflator of a later height is returned" % rs[:140], c.where(rb))
+            else:
+                r.undecided("inflator/result", "fill path returns %s: not decided" % rs[:140], c.where(rb))
+
+
 MUTABLE_SHARED = ("RwLock<", "Mutex<", "Atomic", "RefCell<", "Cell<", "DashMap<", "mpsc::", "OnceCell<", "Condvar", "&mut ")
 
 
